@@ -32,9 +32,10 @@ def run(tier, seed):
         # soundness error of one run must be negligible: at least 40 bits from queries, quadratic extension for 62/64-bit fields
         sc["corruptions"] = rec["corruptions"]
         sc["aux_corruptions"] = rec.get("auxcorruptions", [])
+        sc["lde_cheats"] = rec.get("ldecheats", [])
         scs.append(sc)
     obs = c01.run_scenarios(exe_rel, "sound", scs, wd, "sound_rel", timeout=3400)
-    n_cells = n_viol = n_free = n_pert = skipped = 0
+    n_cells = n_viol = n_free = n_pert = skipped = n_lde = 0
     for sc, o in zip(scs, obs):
         ctx = "field %s, hasher %s, ext %d, n=%d, width=%d, exemptions %d, options %s" % (
             sc["field"], sc["hasher"], sc["ext"], sc["shape"]["n"], sc["shape"]["width"], sc["shape"]["exempt"], sc["opts"])
@@ -43,11 +44,24 @@ def run(tier, seed):
         lowsec = sc["opts"]["q"] * (sc["opts"]["blowup"].bit_length() - 1) < 40
         for cell in o.get("cells", []):
             n_cells += 1
+            if cell.get("lde"):
+                n_lde += 1
+                if cell["prove"] == "ok" and cell["verify"] == "ok" and not lowsec:
+                    if cell.get("comp"):
+                        v.violation("sound/accepted-foreign-commitment/composition",
+                                    "a proof whose committed constraint composition columns differ from the ones behind the out-of-domain evaluations (column 0 + 1, "
+                                    "column 1 - 1: same sum) is ACCEPTED: the columns are not tied to the evaluations individually (%s)" % ctx, dict(sc, comp_cheat=True))
+                        continue
+                    v.violation("sound/accepted-foreign-commitment/%s" % ("aux" if cell["aux"] else "main"),
+                                "a proof whose committed %s segment differs from the one the out-of-domain frame and the constraint evaluations were made from "
+                                "(column %d) is ACCEPTED: the opened column is not tied to the frame (%s)" % ("auxiliary" if cell["aux"] else "main", cell["c"], ctx),
+                                dict(sc, corruptions=[], aux_corruptions=[], lde_cheats=[{"aux": cell["aux"], "c": cell["c"], "i": cell["i"]}]))
+                continue
             if cell["ref_valid"] == cell["violated"]:
                 raise vlib.ToolError("rule mismatch: Violated(%d,%d)=%s but reference validity=%s (%s)" % (
                     cell["c"], cell["i"], cell["violated"], cell["ref_valid"], ctx))
             one = [{"c": cell["c"], "i": cell["i"], "violated": cell["violated"]}]
-            rp = dict(sc, corruptions=[], aux_corruptions=one) if cell.get("aux") else dict(sc, corruptions=one, aux_corruptions=[])
+            rp = dict(sc, corruptions=[], aux_corruptions=one, lde_cheats=[]) if cell.get("aux") else dict(sc, corruptions=one, aux_corruptions=[], lde_cheats=[])
             seg = "auxiliary column" if cell.get("aux") else "column"
             if cell["violated"]:
                 n_viol += 1
@@ -75,8 +89,8 @@ def run(tier, seed):
             if p["verify"] == "ok":
                 v.violation("sound/accepted-perturbed/%s" % p["what"].split(" ")[0],
                             "a proof valid for one statement is ACCEPTED for a different one (%s) (%s)" % (p["what"], ctx), dict(sc, perturbation=p["what"]))
-    log("[replay] %d statements: %d corrupted cells (%d violating, %d free), %d perturbed statements, %d skipped (low query security)" % (
-        len(scs), n_cells, n_viol, n_free, n_pert, skipped))
+    log("[replay] %d statements: %d corrupted cells (%d violating, %d free), %d foreign commitments, %d perturbed statements, %d skipped (low query security)" % (
+        len(scs), n_cells, n_viol, n_free, n_lde, n_pert, skipped))
     rc = v.finish()
     vlib.write_evidence(PID, tier, seed, "model_checking", {
         "states": r.distinct, "transitions": r.generated,
@@ -85,7 +99,7 @@ def run(tier, seed):
         "evaluations": n_cells + n_pert, "distinct_nontrivial": n_cells,
         "rule": "per generated statement: corrupted cells at the positions named in Gen_Stark.tla (expected verdict by Stark!Violated, cross-checked "
                 "with a reference validity predicate) and perturbations of every public input, exemption count, option field, trace length and metadata",
-        "exhaustive": False, "violating_cells": n_viol, "free_cells": n_free, "perturbations": n_pert, "skipped_low_security": skipped,
+        "exhaustive": False, "violating_cells": n_viol, "free_cells": n_free, "foreign_commitments": n_lde, "perturbations": n_pert, "skipped_low_security": skipped,
         "known_finding_occurrences": v.n_known, "new_violations": v.n_new,
     }, time.time() - t0, violations=v.n_new,
         assumptions=["a prover that fails on an invalid trace satisfies the property vacuously",
